@@ -73,8 +73,8 @@ def main():
         "version": 1,
         "setup_cmd": "./setup.sh",
         "hooks": {
-            "guard": "cargo feature verif-hooks",
-            "enable": "harness/Cargo.toml depends on /repo with features = [\"verif-hooks\"]; built by ./setup.sh and every check (cargo build --offline --release, CARGO_TARGET_DIR=/verif/.build/target)",
+            "guard": "cargo features verif-hooks (trace recorder, re-exports) and verif-hooks-ext (hooks that call crate-internal functions: mutator dispatch, hand-built states, single emissions); both off by default",
+            "enable": "harness/Cargo.toml depends on /repo with features verif-hooks + verif-hooks-ext (fallback: verif-hooks only, when the ext hooks no longer compile against a changed source); built by ./setup.sh and every check (cargo build --offline --release, CARGO_TARGET_DIR=/verif/.build/target)",
             "baseline_off_cmd": "cd /repo && cargo test --workspace --no-fail-fast --offline",
             "source_commits": hooks,
             "add_only": True,
